@@ -57,6 +57,11 @@ func (c01) Gen(seed uint64, run int, tier string) *Plan {
 		a := Action{Kind: "req", A: k, B: r.Intn(3), C: r.Intn(1 << 16), D: r.Intn(1 << 30), L: []int{r.Intn(2)}}
 		if p.Policy.Name != "atomic" && r.Intn(5) == 0 {
 			a.Kind = "race" // a hostile request racing a faithful one for the same agent
+			if r.Intn(3) == 0 {
+				// the same check-in delivered more than once at the same time (a retrying redirector,
+				// or anybody who has seen the agent id), with tasks waiting in the queue
+				a.Kind = "dup"
+			}
 		}
 		p.Actions = append(p.Actions, a)
 	}
@@ -162,6 +167,10 @@ func (c01) Exec(p *Plan, dir string) *Result {
 	for i := 0; i < len(p.Actions) && len(res.Violations) == 0 && !w.Sim.Exited; i++ {
 		a := p.Actions[i]
 		w.Sim.SetAction(i)
+		if a.Kind == "dup" {
+			st.duplicate(a)
+			continue
+		}
 		st.request(a)
 	}
 	// the teamserver must still serve a faithful agent afterwards
@@ -182,6 +191,52 @@ func (c01) Exec(p *Plan, dir string) *Result {
 	res.NonTrivial = res.Probes["requests"] > 0
 	res.finish(w)
 	return res
+}
+
+// duplicate: k tasks are queued for an agent, then its check-in arrives two or three times at once.
+// Nothing may panic or hang, and the agent's next check-in must still be served.
+func (st *c01State) duplicate(a Action) {
+	w, res := st.w, st.res
+	d := w.Demons[a.B%len(w.Demons)]
+	if d.Parent != nil {
+		d = d.Root()
+	}
+	for k := 0; k <= a.C%3; k++ {
+		st.taskN++
+		st.wit.Task(d.NameID(), fmt.Sprintf("%08x", 0x01100000+st.taskN), world.CmdSleep, "sleep", map[string]any{"Arguments": "9;1"})
+	}
+	w.Sim.Settle()
+	probs := len(w.Sim.Problems)
+	var calls []*simrt.HTTPCall
+	for k := 0; k < 2+a.D%2; k++ {
+		calls = append(calls, w.Send(world.AgentReq{Port: d.Port, URI: d.URI, Body: d.Frame(nil)}))
+		w.Sim.RunSteps(uint64(w.Sim.SchedRand().Intn(80)))
+	}
+	reason := w.Sim.Settle()
+	res.Probe("requests")
+	res.Probe("kind-duplicate-checkin")
+	res.FP("dup", a.C%3, a.D%2)
+	if len(w.Sim.Problems) > probs {
+		return
+	}
+	for _, c := range calls {
+		if reason == simrt.Budget || !c.Done {
+			blocked := "?"
+			if c.Task != nil {
+				blocked = c.Task.BlockOn
+			}
+			res.Violate("C01", "does-not-terminate", "duplicate-checkin", fmt.Sprintf("one of %d simultaneous copies of agent %s's check-in never completed (blocked on %q)", len(calls), d.NameID(), blocked), w.Sim)
+			return
+		}
+		if s := c.Rec.Status(); s != 200 && s != 404 {
+			res.Violate("C01", "reply", fmt.Sprintf("duplicate-checkin-status-%d", s), fmt.Sprintf("a duplicate check-in of agent %s was answered with status %d", d.NameID(), s), w.Sim)
+			return
+		}
+	}
+	c, _ := w.Checkin(d)
+	if c == nil || !c.Done || c.Rec.Status() != 200 {
+		res.Violate("C01", "wedged", "checkin-after-duplicate-checkins", fmt.Sprintf("agent %s's check-in no longer completes after its check-in arrived %d times at once", d.NameID(), len(calls)), w.Sim)
+	}
 }
 
 // linkChild registers an SMB pivot child below parent through a faithful SMB_CONNECT callback.
